@@ -379,7 +379,7 @@ def fam_cli(tier):
                 emit(cfg + [cmd, a, b2])
             if cmd in ('dump-sector', 'show-titles', 'space', 'type'):
                 trip = list(itertools.product(ARGS[:8], repeat=3))
-                if tier == 'quick':
+                if tier == 'quick' and cmd != 'dump-sector':
                     trip = [p for i, p in enumerate(trip) if i % 7 == 0]
                 for t in trip:
                     emit(cfg + [cmd] + list(t))
